@@ -1,5 +1,6 @@
 /- Line-protocol handlers for the C01 streams (`wfn`, `wfx`, `molden`, `mkl`, `fchk`, `fchkd`). -/
 import Iodata.Model.Wf
+import Iodata.Model.WfRead
 import Iodata.Drv.Conv
 import Iodata.Gen.Conventions
 import Iodata.Gen.Wf
@@ -43,6 +44,103 @@ def showWfn (fromSrc : Bool) (cv1 cvW : Cv) (shells : List Shell) (coeffs : List
 def showShells (ss : List Shell) : String :=
   if ss.isEmpty then "@" else ",".intercalate (ss.map fun s => s!"{s.center}:{s.l}:{s.kind}")
 
+/-! ### reader-side streams (structural files) -/
+
+def parseNats (s : String) : List Nat := (parseInts s).map Int.toNat
+def showNats (l : List Nat) : String := showInts (l.map Int.ofNat)
+
+def parsePrims (ps : String) : List (Nat × Int) :=
+  if ps == "" || ps == "@" then [] else
+  (ps.splitOn ",").map fun p =>
+    match p.splitOn "*" with
+    | [e, d] => (e.toNat!, parseInt d)
+    | _ => (0, 0)
+
+def showPrims (ps : List (Nat × Int)) : String := ",".intercalate (ps.map fun p => s!"{p.1}*{p.2}")
+
+def tagName : Tag → String
+  | .d5 => "5D" | .d5f7 => "5D7F" | .f7 => "7F" | .d5f10 => "5D10F" | .g9 => "9G"
+
+def parseTags (s : String) : List Tag :=
+  if s == "@" then [] else
+  (s.splitOn ",").filterMap fun t =>
+    if t == "5D" then some Tag.d5 else if t == "5D7F" then some Tag.d5f7 else if t == "7F" then some Tag.f7
+    else if t == "5D10F" then some Tag.d5f10 else if t == "9G" then some Tag.g9 else none
+
+def showTags (l : List Tag) : String := if l.isEmpty then "@" else ",".intercalate (l.map tagName)
+
+/-- `centre=l:e*d,e*d/l:...;centre=...` -/
+def parseGto (s : String) : List (Nat × List FShell) :=
+  if s == "@" then [] else
+  (s.splitOn ";").map fun b =>
+    match b.splitOn "=" with
+    | [c, fs] => (c.toNat!, (fs.splitOn "/").map fun f =>
+        match f.splitOn ":" with
+        | [l, ps] => (l.toNat!, parsePrims ps)
+        | _ => (0, []))
+    | _ => (0, [])
+
+def showGto (bs : List (Nat × List FShell)) : String :=
+  if bs.isEmpty then "@" else
+  ";".intercalate (bs.map fun b => s!"{b.1}=" ++ "/".intercalate (b.2.map fun f => s!"{f.1}:{showPrims f.2}"))
+
+def showShellsFull (ss : List Shell) : String :=
+  if ss.isEmpty then "@" else ";".intercalate (ss.map fun s => s!"{s.center}:{s.l}:{s.kind}:{showPrims s.prims}")
+
+/-- columns `a,b,c;d,e,f` -/
+def parseCols (s : String) : List (List Int) := if s == "@" then [] else (s.splitOn ";").map parseInts
+def showCols (cs : List (List Int)) : String := if cs.isEmpty then "@" else ";".intercalate (cs.map showInts)
+
+/-- `$$;nfn:l:e*d,e*d;...` -/
+def parseItems (s : String) : List MklItem :=
+  if s == "@" then [] else
+  (s.splitOn ";").map fun it =>
+    if it == "$$" then MklItem.sep else
+    match it.splitOn ":" with
+    | [n, l, ps] => MklItem.shell n.toNat! l.toNat! (parsePrims ps)
+    | _ => MklItem.sep
+
+def showItems (is : List MklItem) : String :=
+  if is.isEmpty then "@" else
+  ";".intercalate (is.map fun
+    | .sep => "$$"
+    | .shell n l ps => s!"{n}:{l}:{showPrims ps}")
+
+/-- blocks `ncol/row/row;ncol/row/...`, row = `a,b,c` -/
+def parseBlocks (s : String) : List (Nat × List (List Int)) :=
+  if s == "@" then [] else
+  (s.splitOn ";").map fun b =>
+    match b.splitOn "/" with
+    | n :: rows => (n.toNat!, rows.map parseInts)
+    | [] => (0, [])
+
+def showBlocks (bs : List (Nat × List (List Int))) : String :=
+  if bs.isEmpty then "@" else
+  ";".intercalate (bs.map fun b => "/".intercalate (toString b.1 :: b.2.map showInts))
+
+/-- generalized shells `centre:l.k+l.k:e*d/d,e*d/d;...` -/
+def parseGShells (s : String) : List GShell :=
+  if s == "@" then [] else
+  (s.splitOn ";").map fun sh =>
+    match sh.splitOn ":" with
+    | [c, cons, ps] =>
+      { center := c.toNat!,
+        cons := (cons.splitOn "+").map fun k =>
+          match k.splitOn "." with
+          | [l, kd] => (l.toNat!, kd.toList.headD 'c')
+          | _ => (0, '?'),
+        prims := if ps == "" then [] else (ps.splitOn ",").map fun p =>
+          match p.splitOn "*" with
+          | [e, ds] => (e.toNat!, (ds.splitOn "/").map parseInt)
+          | _ => (0, []) }
+    | _ => { center := 0, cons := [], prims := [] }
+
+def showGShells (gs : List GShell) : String :=
+  if gs.isEmpty then "@" else
+  ";".intercalate (gs.map fun g =>
+    s!"{g.center}:" ++ "+".intercalate (g.cons.map fun k => s!"{k.1}.{k.2}") ++ ":" ++
+      ",".intercalate (g.prims.map fun p => s!"{p.1}*" ++ "/".intercalate (p.2.map toString)))
+
 def handle : List String → Option String
   | ["wfn", shells, conv, coeffs] =>
     some (showWfn Iodata.Gen.Wf.wfnScalesFromSource (cvOf (parseTable conv)) (cvOf Iodata.Gen.Conventions.wfn)
@@ -51,11 +149,11 @@ def handle : List String → Option String
     some (showWfn Iodata.Gen.Wf.wfxScalesFromSource (cvOf (parseTable conv)) (cvOf Iodata.Gen.Conventions.wfx)
       (parseShells shells) (parseInts coeffs))
   | ["molden", shells, conv, coeffs] =>
-    let r := (if Iodata.Gen.Wf.moldenRowsFollowSort then moldenDumpSorted else moldenDump)
+    let r := (moldenVariant Iodata.Gen.Wf.moldenRowsFollowSort)
       (cvOf (parseTable conv)) (cvOf Iodata.Gen.Conventions.molden) (parseShells shells) (parseInts coeffs)
     some (showShells r.1 ++ "|" ++ showInts r.2)
   | ["mkl", shells, conv, coeffs] =>
-    let r := (if Iodata.Gen.Wf.mklSeparatorsPerCentre then moldenDumpSorted else mklDump)
+    let r := (mklVariant Iodata.Gen.Wf.mklSeparatorsPerCentre)
       (cvOf (parseTable conv)) (cvOf Iodata.Gen.Conventions.molekel) (parseShells shells) (parseInts coeffs)
     some (showShells r.1 ++ "|" ++ showInts r.2)
   | ["mklirr", na, nb, irreps] =>
@@ -72,6 +170,37 @@ def handle : List String → Option String
     let r : List (Nat × Int) := idx.map fun v => ((v.natAbs - 1), if v < 0 then -1 else 1)
     let D := ((dm.splitOn ";").map parseInts)
     some (";".intercalate ((fchkDensity Iodata.Gen.Wf.fchkDensitiesConverted r D).map showInts))
+  | ["moldenw", shells, conv, coeffs] =>
+    some (match moldenWrite Iodata.Gen.Wf.moldenHeader (parseTable conv) Iodata.Gen.Conventions.molden
+        (parseShells shells) (parseInts coeffs) with
+      | none => "refused"
+      | some f => showTags f.tags ++ "|" ++ showGto f.gto ++ "|" ++ showInts f.mo)
+  | ["moldenr", tags, gto, mo] =>
+    some (match moldenLoad (cvOf Iodata.Gen.Conventions.molden)
+        { tags := parseTags tags, gto := parseGto gto, mo := parseInts mo } with
+      | none => "LoadError"
+      | some r => showShellsFull r.1 ++ "|" ++ showInts r.2)
+  | ["mklw", shells, conv, cols] =>
+    some (match mklWrite (parseTable conv) Iodata.Gen.Conventions.molekel (parseShells shells) (parseCols cols) with
+      | none => "refused"
+      | some f => showItems f.basis ++ "|" ++ showBlocks f.coeff)
+  | ["mklr", items, blocks] =>
+    some (match mklLoad (cvOf Iodata.Gen.Conventions.molekel) { basis := parseItems items, coeff := parseBlocks blocks } with
+      | none => "LoadError"
+      | some r => showShellsFull r.1 ++ "|" ++ showCols r.2)
+  | ["fchkw", gshells, conv, cols] =>
+    let gs := parseGShells gshells
+    some (match fchkWriteBasis gs, fchkWriteCoeffs (parseTable conv) Iodata.Gen.Conventions.fchk gs (parseCols cols) with
+      | some b, some c =>
+        "|".intercalate [showInts b.types, showNats b.nprims, showNats b.atomMap, showNats b.exps, showInts b.c1,
+          (match b.c2 with | none => "none" | some x => showInts x), showInts c]
+      | _, _ => "refused")
+  | ["fchkr", types, nprims, amap, exps, c1, c2, nbasis, flat] =>
+    let b : FchkBasis := FchkBasis.mk (parseInts types) (parseNats nprims) (parseNats amap)
+      (parseNats exps) (parseInts c1) (if c2 == "none" then none else some (parseInts c2))
+    some (showGShells (fchkReadBasis b) ++ "|" ++ showCols (fchkReadCoeffs nbasis.toNat! (parseInts flat)))
+  | ["fchkdr", tri] =>
+    some (";".intercalate ((triangleToDense (parseInts tri)).map showInts))
   | _ => none
 
 end Iodata.Drv.Wf
